@@ -1,5 +1,7 @@
 """C04 — cancel() suppresses the whole trace and nothing else."""
 import seqcheck
+import seqrun
+from props import c09
 
 
 def knobs(r, i):
@@ -7,7 +9,23 @@ def knobs(r, i):
 
 
 def run(v, tier, seed, replay):
-    seqcheck.run(v, tier, seed, replay, "C04", ["C04"], tree_oracles=["no_panic", "exactly_once", "tree", "attachments", "retained"], knobs=knobs,
+    cases, impl, model = seqcheck.run(v, tier, seed, replay, "C04", ["C04"], tree_oracles=["no_panic", "exactly_once", "tree", "attachments", "retained"], knobs=knobs,
                  n_quick=(600, 100), n_thorough=(60000, 5000),
                  assumptions=["queue-full episodes around cancel/finish are exercised in the C09 tier (forced commands FIFO, D2 fix)",
                               "a thread exiting with parked commands and a full queue can lose the drop (open finding D3); a start drained after its drop re-creates the entry (open finding D4)"])
+    # cancel()/finish on a really full 10240-slot queue (fault quantifier of C04)
+    if not replay and not v.violations:
+        scen = {"cancel-on-full-1": c09.sc_cancel_on_full(1), "cancel-on-full-0": c09.sc_cancel_on_full(0)}
+        tags = list(scen)
+        s_impl = seqrun.run_impl([scen[t] for t in tags], jobs=2)
+        s_model = seqrun.run_model([scen[t] for t in tags])
+        for tag, bad in c09.check_scenarios({t: (scen[t], s_impl[i]) for i, t in enumerate(tags)})[:2]:
+            v.violation(bad, {"program": scen[tag], "scenario": tag, "stream": "wild", "implementation_transcript": [seqrun.strip_times(x)[:300] for x in s_impl[tags.index(tag)]]})
+        if not v.violations:
+            for i, t in enumerate(tags):
+                k = seqrun.first_mismatch(s_impl[i], s_model[i]) if s_model else None
+                if k is not None:
+                    v.violation("overload scenario %s: model/implementation correspondence broken at %r" % (t, scen[t][k] if k < len(scen[t]) else "<end>"),
+                                {"program": scen[t], "line": k}, found_input=False, tag="corr-overload")
+                    break
+        v.coverage["overload_scenarios"] = tags
